@@ -332,7 +332,8 @@ def shapes_of_alt(a, key):
     if k == "bind":
         return [("bind", "")]
     if k == "expr":
-        return [("expr", "")]
+        # MapServer reads list expressions {a,b,c} only in CLASS / LABEL EXPRESSION
+        return [("expr", ""), ("listexpr", "")] if key == "expression" else [("expr", "")]
     if k == "regex":
         # expression.json is referenced by many slots; MapServer reads /regex/ only in EXPRESSION / FILTER
         return [("regex", "")] if key in ("expression", "filter") else []
